@@ -135,6 +135,13 @@ where
         self.maxvaluetracker.reset();
         self.permut_generator.reset();
     } // end of reset
+    /// verification hook: copy of the m per-position minima
+    #[cfg(probminhash_verif)]
+    pub fn verif_registers(&self) -> Vec<f64> {
+        (0..self.m)
+            .map(|k| self.maxvaluetracker.get_value(k))
+            .collect()
+    }
 } // end of implementation block for ProbMinHash2
 
 #[cfg(test)]
